@@ -79,6 +79,21 @@ def boom2(kind, msg):
   raise _EXC[kind](msg)
 
 
+# Set by a scenario: 'shutdown' is a callable telling whether the server that
+# evaluates has been asked to shut down; 'log' collects (tag, that flag) at the
+# moment slow_boom raises.
+PROBE = {'shutdown': None, 'log': []}
+
+
+def slow_boom(secs, kind, msg, tag):
+  """Works for `secs`, then fails with an application error."""
+  import time
+  time.sleep(secs)
+  f = PROBE['shutdown']
+  PROBE['log'].append([tag, bool(f and f())])
+  raise _EXC[kind](msg)
+
+
 def ident(x):
   return x
 
